@@ -234,3 +234,8 @@ MUTANTS += [
  ('C20', 'T-mapping-new-oid-unlocked', 'MappingStorage.py', "    @ZODB.utils.locked(opened)\n    def new_oid(self):", "    def new_oid(self):"),
 ]
 MUTANTS = [m for m in MUTANTS if m[3] is not None]
+MUTANTS += [
+ ('C16', 'blob-append-works-on-committed-file', 'blob.py', "                    self._create_uncommitted_file()\n                    result = BlobFile(self._p_blob_uncommitted, mode, self)\n                    if self._p_blob_committed:\n                        with open(self._p_blob_committed, 'rb') as fp:\n                            utils.cp(fp, result)", "                    self._create_uncommitted_file()\n                    if self._p_blob_committed:\n                        os.remove(self._p_blob_uncommitted)\n                        os.link(self._p_blob_committed, self._p_blob_uncommitted)\n                    result = BlobFile(self._p_blob_uncommitted, mode if self._p_blob_committed is None else 'r+', self)\n                    if self._p_blob_committed:\n                        result.seek(0, 2)"),
+ ('C16', 'demo-loadblob-no-base-fallback', 'DemoStorage.py', "        try:\n            return self.changes.loadBlob(oid, serial)\n        except ZODB.POSException.POSKeyError:\n            try:\n                return self.base.loadBlob(oid, serial)", "        try:\n            return self.changes.loadBlob(oid, serial)\n        except ZODB.POSException.POSKeyError:\n            try:\n                raise ZODB.POSException.POSKeyError(oid, serial)"),
+ ('C16', 'demo-blobify-in-base-blob-dir', 'DemoStorage.py', "            blob_dir = tempfile.mkdtemp('.demoblobs')", "            blob_dir = getattr(getattr(self.base, 'fshelper', None), 'base_dir', None) or tempfile.mkdtemp('.demoblobs')"),
+]
